@@ -1,6 +1,6 @@
 # C06 - A suspend point never loses or duplicates a ready coroutine
 SP = 'cocls::suspend_point<void>'
-TYPES = {'SP': SP, 'EXT': SP + '::ExtData'}
+TYPES = {'SP': SP, 'EXT': SP + '::ExtData', 'CH': 'std::__n4861::coroutine_handle<void>', 'SPB': 'cocls::suspend_point<bool>', 'SPI': 'cocls::suspend_point<int>'}
 NAMES = {
     'sp_add': r'^cocls::suspend_point<void>::add\(void\*\)$',
     'std_copy': r'^void\*\* std::copy<void\*\*, void\*\*>\(void\*\*, void\*\*, void\*\*\)$',
@@ -12,6 +12,24 @@ def leaf(name, fn_alias, fn_rx, extra_names=None, replace=(), boundary=(), globa
                 boundary=list(boundary), globals=globals_ or {}, spec=['C06/sp_spec.h', 'C06/h_leaf.c'], harness='h_' + name,
                 enforce=fn_alias, replace=list(replace), under_contract=[fn_rx.strip('^$').replace('\\', '')])
 
+def shapes(tier):
+    # (n1, heap1, cap1, n2, heap2, cap2): every representation pair; counts around the inline limit and every doubling up to 40
+    dst = [(0,0,0),(1,0,0),(2,0,0),(3,0,0),(0,1,1),(1,1,1),(1,1,2),(3,1,4),(4,1,4),(4,1,6),(6,1,6),(7,1,8),(8,1,8),(15,1,16),(16,1,16),(31,1,32),(32,1,32)]
+    src = [(0,0,0),(1,0,0),(2,0,0),(3,0,0),(0,1,2),(1,1,1),(4,1,4),(5,1,8),(8,1,8)]
+    if tier == 'thorough':
+        dst += [(n,1,c) for n in range(0, 33, 1) for c in (n, n + 1) if c >= 1 and (n,1,c) not in dst]
+        src += [(n,1,max(n,1)) for n in (6,7,9,12,16,20,33,40) ]
+    out = []
+    for d in dst:
+        for s in src:
+            if d[0] + s[0] <= 40: out.append(d + s)
+    return out
+def shape_define(sh):
+    return 'BND_SHAPES ' + ', '.join('{%d,%d,%d,%d,%d,%d}' % s for s in sh)
+def chunks(l, n):
+    return [l[i:i + n] for i in range(0, len(l), n)]
+MERGE_RX = r'^cocls::suspend_point<void>::operator<<\(cocls::suspend_point<void>&&\)$'
+
 UNITS = [
     leaf('add', 'sp_add', NAMES['sp_add'], {'std_copy': NAMES['std_copy']}, replace=['std_copy'], boundary=[r'^void\*\* std::copy<void\*\*']),
     leaf('ctor_handle', 'sp_ctor_handle', r'^cocls::suspend_point<void>::suspend_point\(std::__n4861::coroutine_handle<void>\)$'),
@@ -21,6 +39,31 @@ UNITS = [
     leaf('size', 'sp_size', r'^cocls::suspend_point<void>::size\(\) const$'),
     leaf('empty', 'sp_empty', r'^cocls::suspend_point<void>::empty\(\) const$'),
     leaf('begin', 'sp_begin', r'^cocls::suspend_point<void>::begin\(\) const$'),
+] + [
+    dict(leaf('merge', 'sp_merge', MERGE_RX), name='merge_bounded_%s_%d' % (t, ci), harness='h_merge_bounded', enforce=None,
+         spec=['C06/sp_spec.h', 'C06/h_bounded.c'], defines=[shape_define(chunk), 'BND_ASSIGN 0', 'sp_move_assign(a,b) ((SP*)0)'], unwind=42,
+         bounded='<=40 handles; %d concrete shapes (counts/representation/capacity), symbolic handle values and position' % len(chunk),
+         tiers=[t], kind='bounded', timeout=1500, object_bits=11, unwindset=['h_merge_bounded.0:%d' % (len(chunk) + 2)])
+    for t in ('quick', 'thorough') for ci, chunk in enumerate(chunks(shapes(t), 14 if t == 'quick' else 40))
+] + [
+    leaf('move_assign', 'sp_move_assign', r'^cocls::suspend_point<void>::operator=\(cocls::suspend_point<void>&&\)$', {'sp_merge': MERGE_RX}, boundary=[MERGE_RX]),
+    leaf('ctor_default', 'sp_ctor_default', r'^cocls::suspend_point<void>::suspend_point\(\)$'),
+    leaf('await_ready', 'sp_await_ready', r'^cocls::suspend_point<void>::await_ready\(\) const$'),
+    leaf('spb_ctor_val', 'spb_ctor_val', r'^cocls::suspend_point<bool>::suspend_point\(bool\)$'),
+    leaf('spb_ctor_h', 'spb_ctor_h', r'^cocls::suspend_point<bool>::suspend_point\(std::__n4861::coroutine_handle<void>, bool\)$'),
+    leaf('spb_ctor_from', 'spb_ctor_from', r'^cocls::suspend_point<bool>::suspend_point\(cocls::suspend_point<void>&&, bool\)$'),
+    leaf('spb_get', 'spb_get', r'^cocls::suspend_point<bool>::operator bool\(\)$'),
+    leaf('spb_await_resume', 'spb_await_resume', r'^cocls::suspend_point<bool>::await_resume\(\)$'),
+    leaf('spi_ctor_from', 'spi_ctor_from', r'^cocls::suspend_point<int>::suspend_point\(cocls::suspend_point<void>&&, int\)$'),
+    leaf('spi_get', 'spi_get', r'^cocls::suspend_point<int>::operator int\(\)$'),
+    leaf('merge_handle', 'sp_merge_handle', r'^cocls::suspend_point<void>::operator<<\(std::__n4861::coroutine_handle<void>&&\)$', {'std_copy': NAMES['std_copy']}, replace=['std_copy'], boundary=[r'^void\*\* std::copy<void\*\*']),
     leaf('end', 'sp_end', r'^cocls::suspend_point<void>::end\(\) const$'),
 ]
-META = dict(level='proof', trusted_base=['assumed contract: std::copy<void**> copies element-wise (specs/C06/sp_spec.h)'], assumptions=[])
+META = dict(
+    level='proof',
+    level_text='Every loop-free member of suspend_point<void> and the typed variants is verified against a position-wise contract (ghost index) for every count < 2^28, every capacity and both representations, including the inline->heap transition and every doubling inside add(); allocation balance is a postcondition. The merging loop of operator<< is NOT proved: it is checked by bounded execution of the real body on concrete shapes up to the 40 handles of the property statement and reported separately as bounded. suspend_now/clear/destructor/await_suspend are under contract in C05 (they involve the ready queue).',
+    level_note='Trusted: clang front end, ir2c translation, heap primitive (operator new[]/delete[] = malloc/free + counters), assumed element-wise contract of std::copy<void**>. Arithmetic bound count < 2^28 is a stated precondition. Bounded units never count as discharged.',
+    technique='CBMC code contracts (requires/ensures/assigns/frees) enforced per function via goto-instrument --dfcc on the C translation of clang IR of the real header; bounded unwinding stand-in for the merge loop',
+    trusted_base=['assumed contract: std::copy<void**> copies element-wise (specs/C06/sp_spec.h)'],
+    assumptions=['count < 2^28 (the count word holds count<<1 in an unsigned int)', 'operator<< merge loop: bounded(40) only - see coverage.bounded'],
+    explanation='see level_text')
